@@ -4,8 +4,9 @@ Theorems over `Capture` (tied to xonsh/procs/{readers,posix,pipelines,proxies}.p
 
 A  queue reader: safety for all chunkings and all schedules (induction on the schedule, invariant
    `handed on ++ queue ++ in flight ++ unread = payload`).
-B  in-memory buffer of PopenThread: safe for all schedules in which no read lands between the writer's tell() and
-   seek(0, END) (and for ALL schedules once the reader takes the writer's lock); counterexample for the code as it is.
+B  in-memory buffer of PopenThread: with the reader taking the writer's lock (the code since /repo f545504) ALL schedules
+   are safe (C06_B_locked); without it (the pinned snapshot) only the schedules in which no read lands between the writer's
+   tell() and seek(0, END) are (C06_B_partial), and C06_B_cex is the duplicated output the snapshot could produce.
 C  text shaping: independence of the fragmentation for whole-line fragmentations, exactness for plain text, the $() path,
    counterexamples where a CRLF / multi-byte sequence / escape sequence / one-line output is cut by a fragment boundary.
 Return code = last stage.
@@ -276,15 +277,18 @@ theorem C06_B_partial (chunks : List (List Nat)) (evs : List MemBuf.Ev)
     MemBuf.final (MemBuf.run false (MemBuf.init chunks) evs) = chunks.flatten :=
   MB.good_final (MB.good_run false evs _ (MB.good_init chunks) htame) hidle hdone
 
-/-- C06 (B, repaired reader): if `iterraw` takes the writer's lock around `readlines`, EVERY interleaving is safe. -/
+/-- C06 (B, the code as it is since /repo f545504): `iterraw` takes the writer's lock around `readlines`, so a read never
+happens while the writer is inside `_alt_mode_writer` — EVERY interleaving is safe.  (The harness checks on every run that the
+reader still takes the lock and drives the real threads through the counterexample's schedule: no duplicate may appear.) -/
 theorem C06_B_locked (chunks : List (List Nat)) (evs : List MemBuf.Ev)
     (hidle : (MemBuf.run true (MemBuf.init chunks) evs).wpc = .idle)
     (hdone : (MemBuf.run true (MemBuf.init chunks) evs).todo = []) :
     MemBuf.final (MemBuf.run true (MemBuf.init chunks) evs) = chunks.flatten :=
   MB.good_final (MB.good_run true evs _ (MB.good_init chunks) (MB.tame_locked evs _)) hidle hdone
 
-/-- C06 (B, the full statement is FALSE for the code as it is): chunks `a\n`, `b\n`; the reader runs once between the
-writer's `tell()` and `seek(0, END)` for the second chunk: `a\n` is delivered twice. -/
+/-- C06 (B, behaviour of the PINNED SNAPSHOT, repaired in /repo f545504): with an unlocked reader the full statement is
+false — chunks `a\n`, `b\n`; the reader runs once between the writer's `tell()` and `seek(0, END)` for the second chunk:
+`a\n` is delivered twice.  Kept as the reason why the lock is needed (and as what a regression would look like). -/
 theorem C06_B_cex :
     let evs : List MemBuf.Ev := [.W, .W, .W, .W, .W, .R 100, .W, .W, .W]
     let s := MemBuf.run false (MemBuf.init [[97, 10], [98, 10]]) evs
